@@ -36,6 +36,9 @@ extern "C" {
 struct eventloop_epoll {
 	int epoll_fd;
 	struct io_event *current_ev;
+	/* The batch of harvested events that is currently dispatched (struct epoll_event *), NULL outside of the dispatch loop. */
+	void *pending_events;
+	int num_pending_events;
 	struct eventloop loop;
 };
 
